@@ -49,6 +49,12 @@ class C04(TalCheck):
                        "detail": f"probe call history {r['history']}, "
                                  f"expected {m['history']}"})
             return vs
+        if r.get("tcalls") != m.get("tcalls"):
+            vs.append({"kind": "translate-calls", "sig": "translate-calls",
+                       "detail": f"the translation function was called with "
+                                 f"{str(r.get('tcalls'))[:400]}, expected "
+                                 f"{str(m.get('tcalls'))[:400]}"})
+            return vs
         rr, mr = r["raise"], m["raise"]
         if rr is None and mr is None:
             if r["out"] != m["out"]:
